@@ -230,7 +230,27 @@ int run_case(Reader& r, bool& nontrivial, std::string& desc) {
                        for (size_t q = n + 1; q < buf.size(); q++) V_CHECK(buf[q] == 0x5a, "C13:copyToBuffer", "copyToBuffer(%zu) wrote at offset %zu beyond its contract", bs, q);
                    } else for (size_t q = 0; q < buf.size(); q++) V_CHECK(buf[q] == 0x5a, "C13:copyToBuffer", "copyToBuffer(0) wrote");
                    desc += sfmt("copyToBuffer(%zu);", bs); break; }
-        case 23: { V_CHECK(s[i]->size() == m[i].size() && s[i]->isEmpty() == m[i].empty() && SimpleString::StrLen(m[i].c_str()) == m[i].size(), "C13:size", "size/isEmpty/StrLen wrong"); desc += "size;"; break; }
+        case 23: { V_CHECK(s[i]->size() == m[i].size() && s[i]->isEmpty() == m[i].empty() && SimpleString::StrLen(m[i].c_str()) == m[i].size(), "C13:size", "size/isEmpty/StrLen wrong"); desc += "size;";
+                   // operands that alias the string's own buffer (appended here so that earlier inputs keep their meaning): the textbook
+                   // result is the one computed from the operand VALUES before the operation
+                   if (r.empty() || r.below(2) == 0) break;
+                   std::string v = m[i]; verif::cls("aliasing-operand");
+                   switch (r.below(7)) {
+                   case 0: *s[i] += *s[i]; m[i] = v + v; desc += "s+=s;"; break;
+                   case 1: *s[i] = *s[i]; desc += "s=s;"; break;
+                   case 2: { size_t k = r.below((uint32_t)v.size() + 1); *s[i] += s[i]->asCharString() + k; m[i] = v + v.substr(k); desc += "s+=tail(s);"; break; }
+                   case 3: { size_t k = r.below((uint32_t)v.size() + 1); std::string to = v.substr(k); if (to.empty()) break;     // pattern = own suffix
+                             std::string with = gen_str(r, m); if (with.size() > 20) with = with.substr(0, 20);
+                             s[i]->replace(s[i]->asCharString() + k, with.c_str()); m[i] = replace_all(v, to, with); desc += "repl(tail(s),w);"; break; }
+                   case 4: { size_t k = r.below((uint32_t)v.size() + 1); std::string with = v.substr(k); if (with.size() > 20) break;  // replacement = own suffix
+                             std::string to = gen_str(r, m); if (to.empty()) break;
+                             s[i]->replace(to.c_str(), s[i]->asCharString() + k); m[i] = replace_all(v, to, with); desc += "repl(t,tail(s));"; break; }
+                   case 5: SimpleString::padStringsToSameLength(*s[i], *s[i], 'p'); desc += "pad(s,s);"; break;
+                   default: { size_t k = r.below((uint32_t)v.size() + 1); *s[i] = s[i]->asCharString() + k; m[i] = v.substr(k); desc += "s=tail(s);"; break; }
+                   }
+                   if (m[i].size() > 2000) { *s[i] = ""; m[i] = ""; }
+                   SAME(*s[i], m[i], "C13:aliasing-operand");
+                   break; }
         case 24: { int a = SimpleString::StrCmp(m[i].c_str(), m[j].c_str()); V_CHECK(sgn(a) == sgn(strcmp(m[i].c_str(), m[j].c_str())), "C13:StrCmp", "StrCmp sign wrong for \"%s\" \"%s\"", verif::printable(m[i]).c_str(), verif::printable(m[j]).c_str());
                    size_t n = gen_pos(r, std::min(m[i].size(), m[j].size()));
                    int b = SimpleString::StrNCmp(m[i].c_str(), m[j].c_str(), n); V_CHECK(sgn(b) == sgn(strncmp(m[i].c_str(), m[j].c_str(), n)), "C13:StrNCmp", "StrNCmp(n=%zu) sign wrong for \"%s\" \"%s\"", n, verif::printable(m[i]).c_str(), verif::printable(m[j]).c_str());
